@@ -74,12 +74,27 @@ func VerifC06Recurse() {
 	n := 1 + vChoice(vParam("N", 3))
 	p := vChoice(n)
 	a, b := make(jsonArray, n), make(jsonArray, n)
+	// the other positions hold numbers that may or may not change; all numbers are pairwise
+	// different, so the only common elements are the unchanged positions and "same position"
+	// is unambiguous
+	var seen []float64
+	fresh := func() JsonNode {
+		f := vF64()
+		for _, g := range seen {
+			vAssume(f != g)
+		}
+		seen = append(seen, f)
+		return jsonNumber(f)
+	}
 	for i := range a {
 		if i == p {
 			continue
 		}
-		x := vNum()
+		x := fresh()
 		a[i], b[i] = x, x
+		if vChoice(2) == 1 {
+			b[i] = fresh()
+		}
 	}
 	x, y := vF64(), vF64()
 	vAssume(x != y)
@@ -97,11 +112,22 @@ func VerifC06Recurse() {
 	d := a.Diff(b)
 	vObserve("diff", d.Render())
 	vAssert(len(d) > 0, "different documents give an empty diff")
+	descended := false
 	for _, h := range d {
-		vAssert(len(h.Path) >= 2, "container at the same position replaced instead of recursed into")
-		idx, isIdx := h.Path[0].(PathIndex)
-		vAssert(isIdx && int(idx) == p, "hunk does not descend into the changed position")
+		if len(h.Path) >= 2 {
+			idx, isIdx := h.Path[0].(PathIndex)
+			vAssert(isIdx && int(idx) == p, "nested hunk does not descend into the changed container position")
+			descended = true
+			continue
+		}
+		for _, r := range h.Remove {
+			vAssert(refKind(r) < 5, "container at the same position removed instead of recursed into")
+		}
+		for _, x := range h.Add {
+			vAssert(refKind(x) < 5, "container at the same position re-added instead of recursed into")
+		}
 	}
+	vAssert(descended, "no hunk descends into the changed container")
 	vCover("c06.recurse")
 }
 
